@@ -15,15 +15,19 @@ C == Cases[i]
 
 TxOf(r) == [seq |-> r.seq, coding |-> r.coding, orfStart |-> r.orfStart, orfEnd |-> r.orfEnd,
             startNF |-> r.startNF, endNF |-> r.endNF, sec |-> ToSet(r.sec)]
-VarsOf(vs) == {[start |-> vs[k].start, end |-> vs[k].end, ref |-> vs[k].ref, alt |-> vs[k].alt, id |-> vs[k].id] :
-                 k \in 1..Len(vs)}
 
 (* an entry: tx (index), ids (input variant ids), sect (transcript positions of the     *)
 (* annotated Sec codons named by SECT-<gene position> ids; -1 = names no annotated Sec), *)
 (* w2f (residue numbers named by W2F-<k> ids), seq, label                                *)
-Named(e) == {v \in VarsOf(C.txs[e.tx].vars) : v.id \in ToSet(e.ids)}
+(* the variant records of the entry's transcript; an alternative-splicing insertion /        *)
+(* substitution occurs in one form per compatible subset of its nested variants (nids); the     *)
+(* entry selects the form whose nested ids are exactly the nested ids it names                  *)
+Vars(e) == CaseVars(C.txs[e.tx])
+NestedIds(e, id) == UNION {v.nids : v \in {x \in Vars(e) : x.id = id}}
+Named(e) == {v \in Vars(e) : v.id \in ToSet(e.ids) /\ v.nids = ToSet(e.ids) \cap NestedIds(e, v.id)}
 IdsKnown(e) == /\ e.tx > 0
-               /\ \A x \in ToSet(e.ids) : \E v \in VarsOf(C.txs[e.tx].vars) : v.id = x
+               /\ \A x \in ToSet(e.ids) : \/ \E v \in Vars(e) : v.id = x
+                                          \/ \E v \in Vars(e) : x \in v.nids /\ v.id \in ToSet(e.ids)
                /\ \A k \in 1..Len(e.sect) : e.sect[k] \in TxOf(C.txs[e.tx].tx).sec
                /\ Len(e.sect) <= 1
 (* position of reference position p on the sequence carrying H                            *)
@@ -52,7 +56,7 @@ Witness(e) == IdsKnown(e) /\ WitnessWith(e, Named(e))
 (* the recorded finding: the witness only works after adding ONE frameshifting input variant *)
 (* of the same transcript that the entry does not name                                        *)
 MissingFrameshift(e) ==
-  IdsKnown(e) /\ \E v \in VarsOf(C.txs[e.tx].vars) \ Named(e) : Frameshift(v) /\ WitnessWith(e, Named(e) \cup {v})
+  IdsKnown(e) /\ \E v \in Vars(e) \ Named(e) : Frameshift(v) /\ WitnessWith(e, Named(e) \cup {v})
 
 (* the recorded finding "cleavage pattern context lost at a graph node boundary" (see C01):   *)
 (* with exactly the named variants the peptide is a fragment that a context-blind digestion    *)
@@ -75,17 +79,30 @@ PeptideStarts(tx, H, q) ==
 EndOnHap(v, H) == v.start + DeltaSum({u \in H \ {v} : u.end <= v.start}) + Len(v.alt)
 
 (* recorded finding: the entry omits input variants that lie wholly UPSTREAM of the peptide    *)
-(* (they change the reading frame or remove a stop codon on the way to it): the witness works  *)
-(* after adding a set S of unnamed variants of the transcript, all ending before the peptide   *)
+(* (they change the reading frame or remove a stop codon on the way to it): some haplotype H     *)
+(* names everything the entry names and more, is a witness, and every surplus variant - also a    *)
+(* surplus variant nested in an alternative-splicing insertion / substitution - ends before the   *)
+(* first codon of the peptide                                                                     *)
+IdsOf(H) == UNION {{v.id} \cup v.nids : v \in H}
+StartOnHap(v, H) == v.start + DeltaSum({u \in H \ {v} : u.end <= v.start})
+AsMetaOf(e, id) == CHOOSE a \in ToSetP(C.txs[e.tx].as) : C.txs[e.tx].vars[a.idx].id = id
+NestedEnd(e, x, nid, H) ==
+  LET a == AsMetaOf(e, x.id)
+      N == {n \in NestedOf(a) : n.id \in x.nids}
+      n == CHOOSE m \in N : m.id = nid
+      pre == IF a.kind = "Insertion" THEN 1 ELSE 0
+  IN StartOnHap(x, H) + pre + n.start + DeltaSum({u \in N \ {n} : u.end <= n.start}) + Len(n.alt)
 OmitsUpstream(e) ==
   /\ IdsKnown(e) /\ Len(e.sect) = 0 /\ W2FSet(e) = {}
   /\ LET tx == TxOf(C.txs[e.tx].tx)
-         rest == VarsOf(C.txs[e.tx].vars) \ Named(e)
+         ids == ToSet(e.ids)
      IN /\ CompatibleLoose(Named(e), StartIdx(tx), MaxAdj(C.cfg))
-        /\ \E S \in (SUBSET rest) \ {{}} :
-              LET H == Named(e) \cup S IN
+        /\ \E H \in SUBSET Vars(e) :
+              /\ ids \subseteq IdsOf(H) /\ IdsOf(H) # ids
               /\ WitnessWith(e, H)
-              /\ \E pos \in PeptideStarts(tx, H, e.seq) : \A v \in S : EndOnHap(v, H) <= pos
+              /\ \E pos \in PeptideStarts(tx, H, e.seq) :
+                    \A v \in H : /\ (v.id \notin ids => EndOnHap(v, H) <= pos)
+                                 /\ \A nid \in v.nids \ ids : NestedEnd(e, v, nid, H) <= pos
 (* recorded finding: the entry names variants whose reference spans overlap (they cannot sit   *)
 (* on one haplotype); the peptide is produced by a compatible subset of the named variants      *)
 NamesOverlapping(e) ==
@@ -108,12 +125,20 @@ NamesUnusedPartner(e) ==
                     /\ \E y \in H : Mergeable(x, y, StartIdx(tx))
                     /\ EndOnHap(x, H \cup {x}) <= pos
 
+(* the entry involves an alternative-splicing insertion / substitution that has nested variants   *)
+(* (it names the record or one of its nested variants): recorded finding header_of_nested_as_variant *)
+NestedAs(e) ==
+  e.tx > 0 /\ \E a \in ToSetP(C.txs[e.tx].as) :
+     /\ Len(a.nested) > 0
+     /\ (C.txs[e.tx].vars[a.idx].id \in ToSet(e.ids) \/ \E n \in ToSetP(a.nested) : n.id \in ToSet(e.ids))
+
 ClassOf(e) ==
   IF MissingFrameshift(e) THEN "missing_frameshift"
   ELSE IF OmitsUpstream(e) THEN "omits_upstream"
   ELSE IF NamesOverlapping(e) THEN "names_overlapping"
   ELSE IF NamesUnusedPartner(e) THEN "names_unused_partner"
   ELSE IF ContextWitness(e) THEN "context_witness"
+  ELSE IF NestedAs(e) THEN "nested_as"
   ELSE "no_witness"
 
 AllLabels == [k \in 1..Len(C.entries) |-> C.entries[k].label]
